@@ -36,7 +36,13 @@ type lifeCase struct {
 	Client bool    `json:"client"`
 	Stall  int     `json:"stall_ms"` // the transport's Close() takes this long
 	K      int     `json:"k"`
+	// Stretch: whoever logs this hook event on the connection is held there for StretchUS microseconds (ws.Stretch): the history
+	// and its ending are the row's, the moment the teardown steps meet each other is widened
+	Stretch   string `json:"stretch,omitempty"`
+	StretchUS int    `json:"stretch_us,omitempty"`
 }
+
+var lifeStretchPoints = []string{"CloseEnter", "ClosedPre", "ClosedPost", "CasClosingOK", "WgCloseMu", "RwcClosed", "CrStart", "LockFailCtx", "WgBegin", "CloseRcvd"}
 
 const lifeGrace = 150 * time.Millisecond
 
@@ -104,6 +110,10 @@ func runLife(rep *Report, lc lifeCase) {
 	if err != nil {
 		rep.miss("handshake", lc, err.Error())
 		return
+	}
+	if lc.Stretch != "" {
+		ws.Stretch(c, lc.Stretch, time.Duration(lc.StretchUS)*time.Microsecond)
+		defer ws.Unstretch(c)
 	}
 	raw := b
 	// ---- raw peer: answers pings (unless told to withhold) and echoes the first Close frame ----
@@ -443,6 +453,7 @@ func init() {
 		stall := fs.Int("stall", 400, "milliseconds the stalling transport's Close takes")
 		fs.Parse(args)
 		rep := newReport("life")
+		websocket.VerifSink = ws.StretchGate // no trace is recorded here: the hooks only serve as gates
 		k := 0
 		err := readNDJSON(*rowsPath, func(b []byte) error {
 			var row lifeRow
@@ -467,6 +478,9 @@ func init() {
 						continue
 					}
 					lc := lifeCase{Row: row, Client: client, Stall: st, K: k}
+					if h := uint32(k) * 2654435761; h%3 == 0 {
+						lc.Stretch, lc.StretchUS = lifeStretchPoints[int(h>>8)%len(lifeStretchPoints)], 100+int(h>>16)%900
+					}
 					runLife(rep, lc)
 					rep.Evaluations++
 					if len(row.Steps) >= 2 && st > 0 {
